@@ -713,3 +713,51 @@ def c13_conversions(opts):
                             "conversion-exception-" + type(e).__name__)
     t.exhaustive = False
     return t.result()
+
+
+# ----------------------------------------------------------------------------------------------------------------
+# totals must follow the object's current outputs / unspents (no stale state across calls)
+# ----------------------------------------------------------------------------------------------------------------
+@bounded("C13.totals_track_current_state", props=["C13"],
+         bound="seeded histories on one Tx object: query total_out / total_in / fee, then change an output value, append or "
+               "remove an output, replace the unspents, and query again; quick 600 / thorough 6000 histories of 2..5 steps")
+def c13_totals_history(opts):
+    rng = random.Random(opts["seed"] * 1000003 + 1399)
+    quick = opts["tier"] == "quick"
+    Tx = N.tx
+    t = KTally(rule="one case = one history.  After every step total_out() == sum of the current output values, total_in() == sum "
+                    "of the current unspent values and fee() == their difference, computed here from the fields")
+    for h in range(600 if quick else 6000):
+        k = rng.randrange(1, 4)
+        ins = [Tx.TxIn(_h(h * 7 + i, b"in"), i) for i in range(k)]
+        outs = [Tx.TxOut(rand_value(rng), b"\x51") for _ in range(rng.randrange(1, 4))]
+        tx = Tx(1, ins, outs)
+        tx.set_unspents([Tx.TxOut(rand_value(rng), b"\x51") for _ in range(k)])
+        steps = []
+        ok = True
+        for step in range(rng.randrange(2, 6)):
+            want_out = sum(o.coin_value for o in tx.txs_out)
+            want_in = sum(u.coin_value for u in tx.unspents)
+            try:
+                got = (tx.total_out(), tx.total_in(), tx.fee())
+            except Exception as ex:
+                got = repr(ex)
+            if got != (want_out, want_in, want_in - want_out):
+                t.violation("total_out/total_in/fee do not reflect the transaction's current outputs and unspents",
+                            {"history": steps, "outputs": [o.coin_value for o in tx.txs_out], "unspents": [u.coin_value for u in tx.unspents],
+                             "got": got, "want": (want_out, want_in, want_in - want_out)}, finding_key="totals-stale-or-wrong")
+                ok = False
+                break
+            op = rng.choice(["set", "append", "pop", "unspents"])
+            if op == "set":
+                j = rng.randrange(len(tx.txs_out))
+                tx.txs_out[j].coin_value = rand_value(rng)
+            elif op == "append":
+                tx.txs_out.append(Tx.TxOut(rand_value(rng), b"\x51"))
+            elif op == "pop" and len(tx.txs_out) > 1:
+                tx.txs_out.pop()
+            else:
+                tx.set_unspents([Tx.TxOut(rand_value(rng), b"\x51") for _ in range(k)])
+            steps.append(op)
+        t.case(("hist", h), nontrivial=ok and len(steps) >= 2, sample={"steps": steps})
+    return t.result()
